@@ -1,7 +1,7 @@
 (** C08 - building a parametrized sequence equals direct construction: property theorems.
-    Statements only; proofs are in Proofs/Param{Cache,Build,Reg,Refute}.v. *)
+    Statements only; proofs are in Proofs/Param{Cache,Build,Reg,Refute,Round}.v. *)
 From Coq Require Import ZArith List Bool Lia PrimFloat.
-From PV Require Import Model.Base Model.Param Proofs.ParamCache Proofs.ParamBuild Proofs.ParamReg Proofs.ParamRefute.
+From PV Require Import Model.Base Model.Param Proofs.ParamCache Proofs.ParamBuild Proofs.ParamReg Proofs.ParamRefute Proofs.ParamRound.
 Import ListNotations.
 Open Scope Z_scope.
 
@@ -162,3 +162,23 @@ Theorem C08_mappable_rejects_non_prefix :
        exists e : err, build_register declared ntraps qubits = Err e.
 Proof. exact mappable_rejects_non_prefix. Qed.
 Print Assumptions C08_mappable_rejects_non_prefix.
+
+Theorem C08_rint_half_to_even :
+  forall k : Z,
+       0 <= k < 4096 ->
+       let e := if Z.even k then k else k + 1 in
+       f_biteq (f_rint (f_of_Z k + half)) (f_of_Z e) = true /\
+       f_biteq (f_rint (- (f_of_Z k + half))) (- f_of_Z e) = true.
+Proof. exact rint_half_to_even. Qed.
+Print Assumptions C08_rint_half_to_even.
+
+Theorem C08_round_sugar_ties :
+  round_at false 1 (NF 500.5) = Ok (VN (NF 500)) /\
+       round_at false 1 (NF 501.5) = Ok (VN (NF 502)) /\
+       round_at false 1 (NF 250.5) = Ok (VN (NF 250)) /\
+       round_at false 10 (NF 0.25) = Ok (VN (NF 0.20000000000000001)) /\
+       round_at false 10 (NF 0.75) = Ok (VN (NF 0.80000000000000004)) /\
+       round_at false 100 (NF 0.125) = Ok (VN (NF 0.12)) /\
+       round_at false 1 (NF 2.5) = Ok (VN (NF 2)) /\ round_at false 1 (NF (-0.5)) = Ok (VN (NF (- 0))).
+Proof. exact round_sugar_ties. Qed.
+Print Assumptions C08_round_sugar_ties.
